@@ -22,7 +22,7 @@ def gen(rng, tier):
         nrows = len(fr["columns"][0]["values"])
         perm = list(range(nrows))
         rng.shuffle(perm)
-        idx_kind = rng.choice(["dup", "float", "str", "rev"])
+        idx_kind = rng.choice(["dup", "float", "str", "rev", "perm", "perm"])
         colperm = list(range(len(fr["columns"])))
         rng.shuffle(colperm)
         kind = "random"
@@ -33,7 +33,9 @@ def gen(rng, tier):
                 if c["name"] in ("x", "z", "w", "f", "y") and rng.random() < 0.5:
                     for r in rng.sample(range(nrows), rng.randint(1, max(1, nrows // 5))):
                         c["values"][r] = None
-        cases.append({"formula": gen_dm.rand_formula(rng, with_group=0.4), "frame": fr, "na": "drop", "perm": perm,
+        # stateful multi-column transforms see a pandas Series (with that index), not an array
+        atoms = gen_dm.NUM_ATOMS + (["bs(x, df=4)", "poly(z, 2)", "bs(w, df=3, degree=2)"] if kind != "with-missing" else [])
+        cases.append({"formula": gen_dm.rand_formula(rng, with_group=0.4, num_atoms=atoms), "frame": fr, "na": "drop", "perm": perm,
                       "index": idx_kind, "colperm": colperm, "kind": kind})
     return cases
 
@@ -51,6 +53,7 @@ def _variants(c):
     out.append(("permuted rows", dm.select_rows(fr, perm), perm))
     k = c["index"]
     idx = {"dup": [i % 3 for i in range(n)], "float": [i * 0.5 - 2 for i in range(n)],
+           "perm": [(i * 7 + 3) % n if n % 7 else (i * 5 + 3) % n for i in range(n)],
            "str": [f"r{(n - i) % 7}" for i in range(n)], "rev": list(range(n, 0, -1))}[k]
     out.append((f"index {k}", dict(fr, index=idx), list(range(n))))
     out.append(("shuffled columns", {"columns": [fr["columns"][j] for j in c["colperm"]]}, list(range(n))))
